@@ -20,7 +20,7 @@ def data_carriers(case):
     k0 = fx.SERIES_KEYS[fn]
     vals = [v for k in k0 if k != "t" for v in case[k]]
     cars = ["list_none", "list_nan", "tuple_none", "nd_f8", "nd_f4", "nd_obj", "ma_nan", "series", "series_idx",
-            "series_obj", "dask", "list_masked", "ma_junk"]
+            "series_obj", "dask", "list_masked", "ma_junk", "ma_mixed"]
     if fn == "valid":
         if case.get("as_time"):
             return ["nd_f8", "series"]
